@@ -4,6 +4,12 @@ package queue
 // remote target -> scripted go-smtp next hop; the received payload is verified by go-msgauth, by
 // maddy's own check.dkim and by the Lean model (canonicalisation, selection and tag parsing by
 // the model; SHA-256 and RSA / Ed25519 by Go's stdlib); tampered variants must fail everywhere.
+//
+// Round 2: messages padded to sizes around plausible limits (4 KiB .. 1 MiB and beyond, header and
+// body) through retry / restart; fault injection while the message is being written (through the
+// queue and directly on internal/smtpconn against a hand-written next hop): whatever the next hop
+// acknowledged must be the complete signed message, and an attempt maddy treats as failed must not
+// have been acknowledged.  Keys are generated once per run; the Lean driver is called per batch.
 
 import (
 	"bufio"
@@ -14,6 +20,7 @@ import (
 	"encoding/hex"
 	"errors"
 	"fmt"
+	"io"
 	"net"
 	nettextproto "net/textproto"
 	"os"
@@ -37,6 +44,7 @@ import (
 	"github.com/foxcpp/maddy/framework/module"
 	checkdkim "github.com/foxcpp/maddy/internal/check/dkim"
 	moddkim "github.com/foxcpp/maddy/internal/modify/dkim"
+	"github.com/foxcpp/maddy/internal/smtpconn"
 	"github.com/foxcpp/maddy/internal/target/remote"
 	smtptarget "github.com/foxcpp/maddy/internal/target/smtp"
 	"github.com/foxcpp/maddy/internal/verifshim/vc08"
@@ -90,16 +98,87 @@ func c08Senders() []c08Sender {
 }
 
 type c08Env struct {
-	t       *testing.T
-	out     *vh.Out
-	keyDir  map[string]string                   // algo -> dir
-	records map[string]map[string]string        // algo -> "selector/domain" (normalised) -> TXT record
+	t            *testing.T
+	out          *vh.Out
+	keyDir       map[string]string            // algo -> dir
+	records      map[string]map[string]string // algo -> "selector/domain" (normalised) -> TXT record
+	pubs         map[string]map[string]crypto.PublicKey
+	srv          map[bool]*vsmtp.Server // SMTPUTF8 offered?
+	smtpT        map[bool]module.DeliveryTarget
+	remoteT      module.DeliveryTarget
+	queried      map[string]int
+	mu           sync.Mutex
+	raw          map[bool]*vc08.Raw // hand-written next hop (LMTP?) for the direct smtpconn cases
+	rawPort      map[bool]string
+	pending      []*c08Pending
+	pendingBytes int
+}
+
+// the keys of one run: generated ONCE by maddy itself (keys.go), shared by all C08 tests
+type c08KeySet struct {
+	keyDir  map[string]string
+	records map[string]map[string]string
 	pubs    map[string]map[string]crypto.PublicKey
-	srv     map[bool]*vsmtp.Server // SMTPUTF8 offered?
-	smtpT   map[bool]module.DeliveryTarget
-	remoteT module.DeliveryTarget
-	queried map[string]int
-	mu      sync.Mutex
+}
+
+var (
+	c08KeysOnce sync.Once
+	c08KeysV    *c08KeySet
+	c08KeysErr  error
+)
+
+func c08SharedKeys() (*c08KeySet, error) {
+	c08KeysOnce.Do(func() {
+		log.DefaultLogger.Out = log.NopOutput{}
+		ks := &c08KeySet{keyDir: map[string]string{}, records: map[string]map[string]string{}, pubs: map[string]map[string]crypto.PublicKey{}}
+		var base string
+		if d := os.Getenv("VERIF_OUT"); d != "" {
+			// under the run's work directory (wiped by the next run)
+			base = filepath.Join(d, fmt.Sprintf("c08-keys-%d", os.Getpid()))
+			c08KeysErr = os.MkdirAll(base, 0o700)
+		} else {
+			base, c08KeysErr = os.MkdirTemp("", "verif-c08-keys-")
+		}
+		if c08KeysErr != nil {
+			return
+		}
+		tmp := &c08Env{keyDir: ks.keyDir}
+		for _, algo := range []string{"rsa2048", "ed25519"} {
+			ks.keyDir[algo] = filepath.Join(base, algo)
+			ks.records[algo] = map[string]string{}
+			ks.pubs[algo] = map[string]crypto.PublicKey{}
+			// maddy generates the keys and writes the TXT records itself (keys.go); every later
+			// modifier of this run loads them from the files.
+			for _, sel := range []string{"sel", "ключ"} {
+				// every key a case may ask for: parallel tests must not find one missing and generate it
+				sd := c08Sender{domains: c08AllDomains, selector: sel}
+				if _, err := c08Modifier(tmp, algo, sd, "relaxed", "relaxed", true, nil, nil); err != nil {
+					c08KeysErr = fmt.Errorf("key generation: %v", err)
+					return
+				}
+				for _, dom := range sd.domains {
+					rec, err := os.ReadFile(filepath.Join(ks.keyDir[algo], dom+"_"+sel+".dns"))
+					if err != nil {
+						c08KeysErr = err
+						return
+					}
+					pub, kind, err := vc08.ParseRecord(string(rec))
+					if err != nil {
+						c08KeysErr = fmt.Errorf("published record: %v", err)
+						return
+					}
+					if (kind == "rsa") != (algo == "rsa2048") {
+						c08KeysErr = fmt.Errorf("published key type %s for %s", kind, algo)
+						return
+					}
+					ks.records[algo][c08Norm(sel, dom)] = string(rec)
+					ks.pubs[algo][c08Norm(sel, dom)] = pub
+				}
+			}
+		}
+		c08KeysV = ks
+	})
+	return c08KeysV, c08KeysErr
 }
 
 func c08Norm(sel, dom string) string {
@@ -139,7 +218,6 @@ func c08Modifier(env *c08Env, algo string, sd c08Sender, hc, bc string, expiry b
 			nodes = append(nodes, config.Node{Name: "sign_fields", Args: sg})
 		}
 	}
-	log.DefaultLogger.Out = log.NopOutput{}
 	if err := mod.(interface{ Init(*config.Map) error }).Init(config.NewMap(nil, config.Node{Children: nodes})); err != nil {
 		return nil, err
 	}
@@ -152,44 +230,13 @@ func c08Modifier(env *c08Env, algo string, sd c08Sender, hc, bc string, expiry b
 }
 
 func c08NewEnv(t *testing.T, out *vh.Out, network bool) *c08Env {
-	env := &c08Env{t: t, out: out, keyDir: map[string]string{}, records: map[string]map[string]string{},
-		pubs: map[string]map[string]crypto.PublicKey{}, srv: map[bool]*vsmtp.Server{}, smtpT: map[bool]module.DeliveryTarget{}, queried: map[string]int{}}
-	base, err := os.MkdirTemp("", "verif-c08-keys-")
+	env := &c08Env{t: t, out: out, srv: map[bool]*vsmtp.Server{}, smtpT: map[bool]module.DeliveryTarget{}, queried: map[string]int{},
+		raw: map[bool]*vc08.Raw{}, rawPort: map[bool]string{}}
+	ks, err := c08SharedKeys()
 	if err != nil {
 		t.Fatal(err)
 	}
-	t.Cleanup(func() { os.RemoveAll(base) })
-	for _, algo := range []string{"rsa2048", "ed25519"} {
-		env.keyDir[algo] = filepath.Join(base, algo)
-		env.records[algo] = map[string]string{}
-		env.pubs[algo] = map[string]crypto.PublicKey{}
-		// maddy generates the keys and writes the TXT records itself (keys.go); every later
-		// modifier of this run loads them from the files.
-		for _, sel := range []string{"sel", "ключ"} {
-			sd := c08Sender{domains: c08AllDomains, selector: sel}
-			if sel != "sel" {
-				sd.domains = []string{"example.org"}
-			}
-			if _, err := c08Modifier(env, algo, sd, "relaxed", "relaxed", true, nil, nil); err != nil {
-				t.Fatal("key generation: ", err)
-			}
-			for _, dom := range sd.domains {
-				rec, err := os.ReadFile(filepath.Join(env.keyDir[algo], dom+"_"+sel+".dns"))
-				if err != nil {
-					t.Fatal(err)
-				}
-				pub, kind, err := vc08.ParseRecord(string(rec))
-				if err != nil {
-					t.Fatal("published record: ", err)
-				}
-				if (kind == "rsa") != (algo == "rsa2048") {
-					t.Fatal("published key type ", kind, " for ", algo)
-				}
-				env.records[algo][c08Norm(sel, dom)] = string(rec)
-				env.pubs[algo][c08Norm(sel, dom)] = pub
-			}
-		}
-	}
+	env.keyDir, env.records, env.pubs = ks.keyDir, ks.records, ks.pubs
 	if !network {
 		return env
 	}
@@ -266,7 +313,16 @@ func (r c08Resolver) LookupTXT(ctx context.Context, name string) ([]string, erro
 // ---------------------------------------------------------------- case description (= replayable op)
 
 type c08Case struct {
-	mode   string // m = in memory only, d = first attempt (header object in memory), r = retry after a temporary failure (re-read from the spool), R = restart (new queue object reads the spool)
+	// m = in memory only, d = first attempt (header object in memory), r = retry after a temporary failure
+	// (re-read from the spool), R = restart (new queue object reads the spool);
+	// b<k> = the body reader of the first attempt fails after k octets, o = the body cannot be opened at the
+	// first attempt (both: delivered by the retry, from the spool); s<k> = the body reader fails after k octets
+	// while the queue is storing the message (the queue must refuse it: nothing is delivered);
+	// x<p><kind><k>c<chunk> = one smtpconn.Data call against the hand-written next hop, p: s = SMTP, l = LMTP;
+	// kind: n = undisturbed, b = body reader fails after k octets, e = the same with the error returned together
+	// with the last octets, w = the connection fails (once) after k octets of DATA; the reader hands out at
+	// most chunk octets per Read (0 = as many as asked for)
+	mode   string
 	tgt    string // s = smtp target to a server without SMTPUTF8, u = smtp target to a server with SMTPUTF8, r = remote target
 	algo   string
 	hc, bc string
@@ -301,6 +357,52 @@ func c08UnhexStrs(s string) []string {
 	return out
 }
 
+type c08Fault struct {
+	direct bool
+	lmtp   bool
+	kind   string // n | b | e | w | o
+	k      int
+	chunk  int
+}
+
+// c08ParseFault reads the fault part of a mode token; ok = false for m, d, r, R (and junk).
+func c08ParseFault(mode string) (f c08Fault, ok bool) {
+	switch {
+	case mode == "o":
+		return c08Fault{kind: "o"}, true
+	case len(mode) > 1 && (mode[0] == 'b' || mode[0] == 's'):
+		k, err := strconv.Atoi(mode[1:])
+		return c08Fault{kind: mode[:1], k: k}, err == nil && k >= 0
+	case len(mode) > 3 && mode[0] == 'x':
+		f.direct = true
+		f.lmtp = mode[1] == 'l'
+		f.kind = mode[2:3]
+		rest := strings.SplitN(mode[3:], "c", 2)
+		if len(rest) != 2 || (mode[1] != 's' && mode[1] != 'l') || !strings.Contains("nbew", f.kind) {
+			return f, false
+		}
+		var e1, e2 error
+		f.k, e1 = strconv.Atoi(rest[0])
+		f.chunk, e2 = strconv.Atoi(rest[1])
+		return f, e1 == nil && e2 == nil && f.k >= 0 && f.chunk >= 0
+	}
+	return f, false
+}
+
+func (f c08Fault) mode() string {
+	switch {
+	case f.direct:
+		p := "s"
+		if f.lmtp {
+			p = "l"
+		}
+		return fmt.Sprintf("x%s%s%dc%d", p, f.kind, f.k, f.chunk)
+	case f.kind == "o":
+		return "o"
+	}
+	return fmt.Sprintf("%s%d", f.kind, f.k)
+}
+
 func (c *c08Case) op() string {
 	lists := "default"
 	if c.custom {
@@ -315,7 +417,7 @@ func (c *c08Case) op() string {
 		add = append(add, vh.HexBytes([]byte(a[0]))+"="+vh.HexBytes([]byte(a[1])))
 	}
 	return fmt.Sprintf("C08 chain %s %s %s %s %s %d %s %s | %s | %s | %s", c.mode, c.tgt, c.algo, c.hc, c.bc, c.sender, e, lists,
-		vc08.HexList(c.fields), strings.Join(add, " "), vh.HexBytes(c.body))
+		vc08.EncList(c.fields), strings.Join(add, " "), vc08.Enc(c.body))
 }
 
 func c08ParseCase(op string) (*c08Case, error) {
@@ -331,6 +433,9 @@ func c08ParseCase(op string) (*c08Case, error) {
 		return nil, errors.New("bad chain op head")
 	}
 	c := &c08Case{mode: t[2], tgt: t[3], algo: t[4], hc: t[5], bc: t[6], expiry: t[8] == "1"}
+	if _, ok := c08ParseFault(c.mode); !ok && !strings.Contains("m d r R", c.mode) {
+		return nil, errors.New("bad chain mode " + c.mode)
+	}
 	c.sender, _ = strconv.Atoi(t[7])
 	if t[9] != "default" {
 		c.custom = true
@@ -339,13 +444,13 @@ func c08ParseCase(op string) (*c08Case, error) {
 		c.sg = c08UnhexStrs(strings.TrimPrefix(p[1], "sg:"))
 	}
 	for _, f := range strings.Fields(groups[1]) {
-		c.fields = append(c.fields, vh.UnhexBytes(f))
+		c.fields = append(c.fields, vc08.Dec(f))
 	}
 	for _, a := range strings.Fields(groups[2]) {
 		kv := strings.SplitN(a, "=", 2)
 		c.added = append(c.added, [2]string{string(vh.UnhexBytes(kv[0])), string(vh.UnhexBytes(kv[1]))})
 	}
-	c.body = vh.UnhexBytes(strings.TrimSpace(groups[3]))
+	c.body = vc08.Dec(strings.TrimSpace(groups[3]))
 	return c, nil
 }
 
@@ -432,11 +537,17 @@ func c08GenCase(r *vh.Rng, mode string) *c08Case {
 
 // ---------------------------------------------------------------- one case
 
+// c08FailFirst stands between the queue and the real target: it refuses the first `fails` attempts
+// at Start (451), injects the configured fault into the first attempt that gets as far as Body, and
+// records for every attempt whether the target reported the message as handed over.
 type c08FailFirst struct {
-	inner module.DeliveryTarget
-	mu    sync.Mutex
-	fails int
-	hit   chan struct{}
+	inner  module.DeliveryTarget
+	mu     sync.Mutex
+	fails  int
+	hit    chan struct{}
+	fault  *c08Fault // nil = none
+	fired  bool
+	bodyOK []bool // per attempt that reached Body: did the target report success?
 }
 
 func (f *c08FailFirst) Start(ctx context.Context, m *module.MsgMetadata, from string) (module.Delivery, error) {
@@ -453,7 +564,62 @@ func (f *c08FailFirst) Start(ctx context.Context, m *module.MsgMetadata, from st
 		}
 		return nil, &exterrors.SMTPError{Code: 451, EnhancedCode: exterrors.EnhancedCode{4, 0, 0}, Message: "c08: not now"}
 	}
-	return f.inner.Start(ctx, m, from)
+	d, err := f.inner.Start(ctx, m, from)
+	if err != nil {
+		return nil, err
+	}
+	return &c08Attempt{Delivery: d, ff: f}, nil
+}
+
+type c08Attempt struct {
+	module.Delivery
+	ff *c08FailFirst
+}
+
+// c08FaultBuffer is the message body as the target sees it at the disturbed attempt.
+type c08FaultBuffer struct {
+	data []byte
+	f    c08Fault
+}
+
+func (b c08FaultBuffer) Open() (io.ReadCloser, error) {
+	if b.f.kind == "o" {
+		return nil, vc08.ErrInjected
+	}
+	return &vc08.FaultReader{Data: b.data, K: b.f.k, Chunk: b.f.chunk, Together: b.f.kind == "e"}, nil
+}
+func (b c08FaultBuffer) Len() int      { return len(b.data) }
+func (b c08FaultBuffer) Remove() error { return nil }
+
+func (a *c08Attempt) Body(ctx context.Context, h textproto.Header, body buffer.Buffer) error {
+	ff := a.ff
+	ff.mu.Lock()
+	inject := ff.fault != nil && !ff.fired
+	if inject {
+		ff.fired = true
+	}
+	ff.mu.Unlock()
+	if inject {
+		r, err := body.Open()
+		if err != nil {
+			return err
+		}
+		data, err := io.ReadAll(r)
+		r.Close()
+		if err != nil {
+			return err
+		}
+		f := *ff.fault
+		if f.k > len(data) {
+			f.k = len(data)
+		}
+		body = c08FaultBuffer{data: data, f: f}
+	}
+	err := a.Delivery.Body(ctx, h, body)
+	ff.mu.Lock()
+	ff.bodyOK = append(ff.bodyOK, err == nil)
+	ff.mu.Unlock()
+	return err
 }
 
 func c08NewQueue(dir string, tgt module.DeliveryTarget, retry time.Duration) *Queue {
@@ -483,8 +649,10 @@ func c08RawFields(h textproto.Header) ([][]byte, error) {
 	return out, nil
 }
 
-// transport runs the real queue and target; returns spool header file, spool body file, payload at the next hop.
-func (env *c08Env) transport(c *c08Case, sd c08Sender, hdr textproto.Header, body []byte) (spoolH, spoolB, payload []byte, err error) {
+// transport runs the real queue and target; returns the spool header file, the spool body file, every payload
+// the next hop acknowledged (in order) and, per attempt that got as far as the message data, whether the
+// target reported it as handed over.
+func (env *c08Env) transport(c *c08Case, sd c08Sender, hdr textproto.Header, body []byte) (spoolH, spoolB []byte, accepted [][]byte, bodyOK []bool, refused bool, err error) {
 	var tgt module.DeliveryTarget
 	utf8srv := true
 	rcpt := "rcpt@rcpt.example"
@@ -500,21 +668,30 @@ func (env *c08Env) transport(c *c08Case, sd c08Sender, hdr textproto.Header, bod
 	srv.Script.Set(func(s *vsmtp.Script) { s.Txs = nil })
 	dir, err := os.MkdirTemp("", "verif-c08-q-")
 	if err != nil {
-		return nil, nil, nil, err
+		return nil, nil, nil, nil, false, err
 	}
 	defer os.RemoveAll(dir)
 	ff := &c08FailFirst{inner: tgt, hit: make(chan struct{}, 1)}
 	retry := time.Duration(0)
 	switch c.mode {
+	case "d":
 	case "r":
 		ff.fails = 1
 	case "R":
 		ff.fails = 1000
 		retry = time.Hour
+	default:
+		f, ok := c08ParseFault(c.mode)
+		if !ok || f.direct {
+			return nil, nil, nil, nil, false, errors.New("not a queue mode: " + c.mode)
+		}
+		if f.kind != "s" {
+			ff.fault = &f
+		}
 	}
 	q := c08NewQueue(dir, ff, retry)
 	if err := q.start(1); err != nil {
-		return nil, nil, nil, err
+		return nil, nil, nil, nil, false, err
 	}
 	closed := false
 	defer func() {
@@ -531,88 +708,208 @@ func (env *c08Env) transport(c *c08Case, sd c08Sender, hdr textproto.Header, bod
 	ctx := context.Background()
 	d, err := q.Start(ctx, meta, from)
 	if err != nil {
-		return nil, nil, nil, err
+		return nil, nil, nil, nil, false, err
 	}
 	if err := d.AddRcpt(ctx, rcpt, smtp.RcptOptions{}); err != nil {
-		return nil, nil, nil, err
+		return nil, nil, nil, nil, false, err
 	}
-	if err := d.Body(ctx, hdr, buffer.MemoryBuffer{Slice: body}); err != nil {
-		return nil, nil, nil, err
+	var bodyBuf buffer.Buffer = buffer.MemoryBuffer{Slice: body}
+	storeFault, isStoreFault := c08ParseFault(c.mode)
+	isStoreFault = isStoreFault && storeFault.kind == "s"
+	if isStoreFault {
+		bodyBuf = c08FaultBuffer{data: body, f: c08Fault{kind: "b", k: storeFault.k}}
+	}
+	if err := d.Body(ctx, hdr, bodyBuf); err != nil {
+		if !isStoreFault || !errors.Is(err, vc08.ErrInjected) {
+			return nil, nil, nil, nil, false, err
+		}
+		// the queue refused the message (the endpoint reports the failure to the sender): nothing was
+		// committed, so no attempt can be under way; whatever the next hop has acknowledged by now counts
+		d.Abort(ctx)
+		srv.Script.Set(func(s *vsmtp.Script) {
+			for _, tx := range s.Txs {
+				if tx.Done {
+					accepted = append(accepted, tx.Data)
+				}
+			}
+		})
+		ents, _ := os.ReadDir(dir)
+		if len(ents) != 0 {
+			env.out.Stat("chain.store-fault.files-left-behind")
+		}
+		return nil, nil, accepted, nil, true, nil
 	}
 	spoolH, _ = os.ReadFile(filepath.Join(dir, id+".header"))
 	spoolB, _ = os.ReadFile(filepath.Join(dir, id+".body"))
 	if err := d.Commit(ctx); err != nil {
-		return nil, nil, nil, err
+		return nil, nil, nil, nil, false, err
 	}
 	if c.mode == "R" {
 		select {
 		case <-ff.hit:
 		case <-time.After(30 * time.Second):
-			return spoolH, spoolB, nil, errors.New("first attempt never happened")
+			return spoolH, spoolB, nil, nil, false, errors.New("first attempt never happened")
 		}
 		q.Close() // waits for the attempt to finish writing the meta-data
 		closed = true
-		q2 := c08NewQueue(dir, tgt, 0)
+		ff = &c08FailFirst{inner: tgt, hit: make(chan struct{}, 1)}
+		q2 := c08NewQueue(dir, ff, 0)
 		if err := q2.start(1); err != nil {
-			return spoolH, spoolB, nil, err
+			return spoolH, spoolB, nil, nil, false, err
 		}
 		defer q2.Close()
 	}
-	deadline := time.Now().Add(60 * time.Second)
+	deadline := time.Now().Add(45 * time.Second)
 	for time.Now().Before(deadline) {
-		var got []byte
-		done := false
-		srv.Script.Set(func(s *vsmtp.Script) {
-			for _, tx := range s.Txs {
-				if tx.Done {
-					got, done = tx.Data, true
-				}
+		ff.mu.Lock()
+		handedOver := len(ff.bodyOK) > 0 && ff.bodyOK[len(ff.bodyOK)-1]
+		ff.mu.Unlock()
+		ents, _ := os.ReadDir(dir)
+		if !handedOver && len(ents) == 0 {
+			time.Sleep(20 * time.Millisecond) // not a race with the hand-over being recorded?
+			ff.mu.Lock()
+			handedOver = len(ff.bodyOK) > 0 && ff.bodyOK[len(ff.bodyOK)-1]
+			ff.mu.Unlock()
+			if !handedOver {
+				return spoolH, spoolB, nil, nil, false, errors.New("the message left the queue without having been handed over")
 			}
-		})
-		if done {
-			ents, _ := os.ReadDir(dir)
+		}
+		if handedOver {
 			if len(ents) == 0 {
-				return spoolH, spoolB, got, nil
+				srv.Script.Set(func(s *vsmtp.Script) {
+					for _, tx := range s.Txs {
+						if tx.Done {
+							accepted = append(accepted, tx.Data)
+						}
+					}
+				})
+				ff.mu.Lock()
+				bodyOK = append([]bool{}, ff.bodyOK...)
+				ff.mu.Unlock()
+				return spoolH, spoolB, accepted, bodyOK, false, nil
 			}
 		}
 		time.Sleep(300 * time.Microsecond)
 	}
-	return spoolH, spoolB, nil, errors.New("not delivered within 60 s")
+	return spoolH, spoolB, nil, nil, false, errors.New("not delivered within 45 s")
 }
 
-func (env *c08Env) run(c *c08Case) {
+// direct makes one smtpconn.Data call against the hand-written next hop.
+func (env *c08Env) direct(f c08Fault, hdr textproto.Header, body []byte) (accepted [][]byte, sent bool, err error) {
+	raw, port := env.raw[f.lmtp], env.rawPort[f.lmtp]
+	raw.Take()
+	c := smtpconn.New()
+	c.Log = log.Logger{Out: log.NopOutput{}}
+	c.ConnectTimeout, c.CommandTimeout, c.SubmissionTimeout = 30*time.Second, 30*time.Second, 30*time.Second
+	var fc *vc08.FaultConn
+	if f.kind == "w" {
+		dial := c.Dialer
+		c.Dialer = func(ctx context.Context, network, addr string) (net.Conn, error) {
+			conn, err := dial(ctx, network, addr)
+			if err != nil {
+				return nil, err
+			}
+			fc = &vc08.FaultConn{Conn: conn, K: f.k}
+			return fc, nil
+		}
+	}
+	ctx := context.Background()
+	endp := config.Endpoint{Scheme: "tcp", Host: "127.0.0.1", Port: port}
+	if f.lmtp {
+		_, err = c.ConnectLMTP(ctx, endp, false, nil)
+	} else {
+		_, err = c.Connect(ctx, endp, false, nil)
+	}
+	if err != nil {
+		return nil, false, err
+	}
+	if err := c.Mail(ctx, "sender@c08.example", smtp.MailOptions{}); err != nil {
+		c.DirectClose()
+		return nil, false, err
+	}
+	if err := c.Rcpt(ctx, "rcpt@c08.example", smtp.RcptOptions{}); err != nil {
+		c.DirectClose()
+		return nil, false, err
+	}
+	var rd io.Reader
+	switch f.kind {
+	case "b", "e":
+		rd = &vc08.FaultReader{Data: body, K: f.k, Chunk: f.chunk, Together: f.kind == "e"}
+	default:
+		rd = &vc08.ChunkReader{Data: body, Chunk: f.chunk}
+	}
+	derr := c.Data(ctx, hdr, rd)
+	// what target.smtp and target.remote do with the connection, after success and after failure alike
+	c.Close()
+	for _, tx := range raw.Take() {
+		if tx.Accepted {
+			accepted = append(accepted, tx.Payload())
+		}
+	}
+	if f.kind == "w" && (fc == nil || !fc.Fired) && derr != nil {
+		return accepted, false, fmt.Errorf("Data failed before the injected fault: %v", derr)
+	}
+	return accepted, derr == nil, nil
+}
+
+// ---- signing (also used, quietly, to learn the size of the signed header when padding to a size)
+
+type c08Signed struct {
+	hdr      textproto.Header
+	presign  [][]byte
+	signed   [][]byte
+	sigField []byte
+	tags     map[string]string
+	hkeys    []string
+	digest   []byte
+	maxLine  int // longest line of the signature field
+}
+
+func (env *c08Env) sign(c *c08Case, op string, quiet bool) *c08Signed {
 	out := env.out
-	op := c.op()
+	stat := func(k string) {
+		if !quiet {
+			out.Stat(k)
+		}
+	}
+	viol := func(sig, detail string) {
+		if !quiet {
+			out.Violation(sig, op, detail)
+		}
+	}
 	sd := c08Senders()[c.sender]
 	ctx := context.Background()
-
 	// the header as an SMTP endpoint would hand it over: parsed by go-message, then Add()s
 	hdr, err := textproto.ReadHeader(bufio.NewReader(bytes.NewReader(vc08.Join(c.fields, nil))))
 	if err != nil {
-		out.Note("generated header refused by go-message: " + err.Error() + " " + op)
-		out.Stat("chain.gen-refused")
-		return
+		if !quiet {
+			out.Note("generated header refused by go-message: " + err.Error() + " " + op)
+		}
+		stat("chain.gen-refused")
+		return nil
 	}
 	if hdr.Len() != len(c.fields) {
-		out.Violation("C08/harness-header-mismatch", op, fmt.Sprintf("generated %d fields, parsed %d", len(c.fields), hdr.Len()))
-		return
+		viol("C08/harness-header-mismatch", fmt.Sprintf("generated %d fields, parsed %d", len(c.fields), hdr.Len()))
+		return nil
 	}
 	for _, a := range c.added {
 		hdr.Add(a[0], a[1])
 	}
 	mod, err := c08Modifier(env, c.algo, sd, c.hc, c.bc, c.expiry, c.ov, c.sg)
 	if err != nil {
-		out.Note("modifier: " + err.Error())
-		out.Stat("chain.modifier-error")
-		return
+		if !quiet {
+			out.Note("modifier: " + err.Error())
+		}
+		stat("chain.modifier-error")
+		return nil
 	}
 	var digests [][]byte
 	moddkim.C08RecordDigests(mod, func(d []byte) { digests = append(digests, d) })
 	before := hdr.Copy()
 	presign, err := c08RawFields(hdr)
 	if err != nil {
-		out.Stat("chain.unwritable-header")
-		return
+		stat("chain.unwritable-header")
+		return nil
 	}
 	hkeys := moddkim.C08FieldsToSign(mod, &before)
 	meta := &module.MsgMetadata{ID: "c08", SMTPOpts: smtp.MailOptions{UTF8: sd.utf8}}
@@ -632,36 +929,103 @@ func (env *c08Env) run(c *c08Case) {
 		f.Close()
 		defer os.Remove(f.Name())
 		bodyBuf = buffer.FileBuffer{Path: f.Name(), LenHint: len(c.body)}
-		out.Stat("case.body.file-backed")
+		stat("case.body.file-backed")
 	}
 	err = st.RewriteBody(ctx, &hdr, bodyBuf)
 	if err != nil {
-		out.Stat("sign.error:" + c08ErrClass(err))
-		return
+		stat("sign.error:" + c08ErrClass(err))
+		return nil
 	}
 	if hdr.Len() != len(presign)+1 {
-		out.Stat("sign.unsigned")
-		out.Violation("C08/not-signed", op, "the modifier returned no error and added no signature")
-		return
+		stat("sign.unsigned")
+		viol("C08/not-signed", "the modifier returned no error and added no signature")
+		return nil
 	}
 	signed, err := c08RawFields(hdr)
 	if err != nil {
-		out.Violation("C08/signed-header-unwritable", op, err.Error())
-		return
+		viol("C08/signed-header-unwritable", err.Error())
+		return nil
 	}
 	sigField := signed[0]
 	for i := range presign {
 		if !bytes.Equal(presign[i], signed[i+1]) {
-			out.Violation("C08/signing-changed-header", op, fmt.Sprintf("field %d changed by signing", i))
-			return
+			viol("C08/signing-changed-header", fmt.Sprintf("field %d changed by signing", i))
+			return nil
 		}
 	}
 	tags := vc08.Tags(sigField)
 	if vc08.Name(sigField) != "dkim-signature" || len(digests) != 1 {
-		out.Violation("C08/harness-signature-shape", op, fmt.Sprintf("name=%q digests=%d", vc08.Name(sigField), len(digests)))
-		return
+		viol("C08/harness-signature-shape", fmt.Sprintf("name=%q digests=%d", vc08.Name(sigField), len(digests)))
+		return nil
 	}
-	out.Stat("case.mode." + c.mode)
+	maxLine := 0
+	for _, l := range bytes.Split(sigField, []byte("\r\n")) {
+		if len(l) > maxLine {
+			maxLine = len(l)
+		}
+	}
+	return &c08Signed{hdr: hdr, presign: presign, signed: signed, sigField: sigField, tags: tags, hkeys: hkeys, digest: digests[0], maxLine: maxLine}
+}
+
+// c08SizeClass names a size relative to the limits the generators aim at.
+func c08SizeClass(n int) string {
+	for _, l := range c08Limits {
+		if d := n - l.n; d >= -1 && d <= 1 {
+			return fmt.Sprintf("%s%+d", l.name, d)
+		}
+	}
+	for i := len(c08Limits) - 1; i >= 0; i-- {
+		if n > c08Limits[i].n {
+			return ">" + c08Limits[i].name
+		}
+	}
+	return "<" + c08Limits[0].name
+}
+
+var c08Limits = []struct {
+	name string
+	n    int
+}{{"4KiB", 4096}, {"8KiB", 8192}, {"16KiB", 16384}, {"32KiB", 32768}, {"64KiB", 65536}, {"1MiB", 1 << 20}, {"2MiB", 2 << 20}}
+
+// a case whose next-hop verification is still to be done (the Lean driver is called per batch)
+type c08Pending struct {
+	c       *c08Case
+	op      string
+	sd      c08Sender
+	tags    map[string]string
+	payload []byte
+	tampers []vc08.Tamper
+}
+
+func (env *c08Env) run(c *c08Case) {
+	if p := env.prepare(c); p != nil {
+		env.pending = append(env.pending, p)
+		env.pendingBytes += len(p.payload) * (1 + len(p.tampers))
+		if len(env.pending) >= 64 || env.pendingBytes > 16<<20 {
+			env.flush()
+		}
+	}
+}
+
+func (env *c08Env) prepare(c *c08Case) *c08Pending {
+	out := env.out
+	op := c.op()
+	sd := c08Senders()[c.sender]
+	fault, isFault := c08ParseFault(c.mode)
+
+	sg := env.sign(c, op, false)
+	if sg == nil {
+		return nil
+	}
+	hdr, signed, tags, hkeys := sg.hdr, sg.signed, sg.tags, sg.hkeys
+	modeStat := c.mode
+	if isFault {
+		modeStat = c.mode[:1]
+		if fault.direct {
+			modeStat = c.mode[:3]
+		}
+	}
+	out.Stat("case.mode." + modeStat)
 	out.Stat("case.algo." + c.algo)
 	out.Stat("case.canon." + c.hc + "/" + c.bc)
 	out.Stat(fmt.Sprintf("case.sender.%02d", c.sender))
@@ -681,19 +1045,14 @@ func (env *c08Env) run(c *c08Case) {
 	if !sd.utf8 && (!isASCII(tags["d"]) || !isASCII(tags["s"]) || !isASCII(tags["i"])) {
 		out.Violation("C08/non-eai-u-label", op, "non-EAI message signed with non-ASCII d=/s=/i=: "+tags["d"]+" "+tags["s"])
 	}
-	maxLine := 0
-	for _, l := range bytes.Split(sigField, []byte("\r\n")) {
-		if len(l) > maxLine {
-			maxLine = len(l)
-		}
-	}
+	maxLine := sg.maxLine
 	if maxLine > 2000 && c.mode != "m" {
 		// Outside the property (the message never arrives): go-msgauth does not fold the h= tag, so a
 		// header with some 130 occurrences of signed fields yields a signature line that a go-smtp
 		// next hop (MaxLineLength 2000; maddy's own endpoint: 4000) refuses.  Recorded, not transported.
 		out.Stat("chain.skipped.sig-line>2000")
 		out.Note(fmt.Sprintf("signature line of %d octets (h= with %d names) would be refused by the scripted next hop", maxLine, len(hkeys)))
-		return
+		return nil
 	}
 	if maxLine > 998 {
 		out.Stat("sig.line>998")
@@ -709,80 +1068,162 @@ func (env *c08Env) run(c *c08Case) {
 	textproto.WriteHeader(&sent, hdr)
 	hdrBytes := append([]byte{}, sent.Bytes()...)
 	sent.Write(c.body)
+	accTag := ""
 	if c.mode == "m" {
 		payload = sent.Bytes()
 		spoolH = hdrBytes
 	} else {
-		out.Stat("case.target." + c.tgt)
-		spoolH, spoolB, payload, err = env.transport(c, sd, hdr, c.body)
-		if err != nil {
-			out.Violation("C08/not-delivered", op, err.Error())
-			return
+		var accepted [][]byte
+		nOK := 0
+		if isFault && fault.direct {
+			out.Stat("case.direct." + map[bool]string{false: "smtp", true: "lmtp"}[fault.lmtp])
+			spoolH = hdrBytes
+			acc, ok, err := env.direct(fault, hdr, c.body)
+			if err != nil {
+				out.Violation("C08/harness-direct", op, err.Error())
+				return nil
+			}
+			accepted = acc
+			if ok {
+				nOK = 1
+			}
+			if (fault.kind == "n") != ok {
+				out.Stat("direct.unexpected-result")
+			}
+			accTag = fmt.Sprintf(" acc=%d sent=%d", len(accepted), nOK)
+		} else {
+			out.Stat("case.target." + c.tgt)
+			var bodyOK []bool
+			var err error
+			var refused bool
+			spoolH, spoolB, accepted, bodyOK, refused, err = env.transport(c, sd, hdr, c.body)
+			if err != nil {
+				out.Violation("C08/not-delivered", op, err.Error())
+				return nil
+			}
+			if refused {
+				out.Stat("chain.store-fault.refused")
+				spoolH, spoolB = hdrBytes, c.body
+			}
+			for _, ok := range bodyOK {
+				if ok {
+					nOK++
+				}
+			}
+			if !bytes.Equal(spoolB, c.body) {
+				out.Violation("C08/spool-body-differs", op, fmt.Sprintf("%d bytes stored for %d", len(spoolB), len(c.body)))
+			}
+			out.Stat(fmt.Sprintf("chain.attempts-with-data.%d", len(bodyOK)))
+			accTag = fmt.Sprintf(" acc=%d", len(accepted))
 		}
-		if !bytes.Equal(spoolB, c.body) {
-			out.Violation("C08/spool-body-differs", op, fmt.Sprintf("%d bytes stored for %d", len(spoolB), len(c.body)))
+		out.Stat("chain.spool-header." + c08SizeClass(len(hdrBytes)))
+		out.Stat("chain.body." + c08SizeClass(len(c.body)))
+		// Everything the next hop acknowledged.  The copy belonging to the attempt maddy counts as
+		// successful is the last one; any other acknowledged copy comes from an attempt maddy treats as
+		// failed (and repeats): the next hop must not have taken it for a message.
+		extra := accepted
+		if nOK > 0 && len(accepted) > 0 {
+			payload = accepted[len(accepted)-1]
+			extra = accepted[:len(accepted)-1]
+		}
+		for _, a := range extra {
+			why := "complete copy"
+			if !bytes.Equal(a, sent.Bytes()) {
+				pass, detail := env.msgauthVerify(c.algo, a, tags["d"])
+				why = fmt.Sprintf("%d of %d octets; go-msgauth: pass=%v %s", len(a), sent.Len(), pass, detail)
+			}
+			out.Violation("C08/failed-attempt-accepted", op, "the next hop acknowledged (250 after the final dot) a message from an attempt maddy reports as failed: "+why)
+		}
+		if nOK > 0 && payload == nil {
+			out.Violation("C08/not-delivered", op, "maddy reports the message as handed over, the next hop acknowledged nothing")
+		}
+		if nOK > 1 {
+			out.Violation("C08/delivered-twice", op, fmt.Sprintf("%d attempts handed the message over", nOK))
 		}
 		// the property's first half, stated directly on bytes: what arrives is what was signed
-		if !bytes.Equal(payload, sent.Bytes()) {
+		if payload != nil && !bytes.Equal(payload, sent.Bytes()) {
 			out.Violation("C08/payload-differs", op, c08Diff(sent.Bytes(), payload))
 		}
 	}
 	bh, _ := base64.StdEncoding.DecodeString(tags["bh"])
-	obs := fmt.Sprintf("hdr=%s payload=%d:%s c=%s/%s h=%d bh=%s hh=%s", vc08.Sha(spoolH), len(payload), vc08.Sha(payload),
-		c.hc, c.bc, len(hkeys), hex.EncodeToString(bh), hex.EncodeToString(digests[0]))
-	out.Corr(op+" # "+vc08.HexList(signed), obs)
+	corrOp := op + " # " + vc08.EncList(signed)
+	if payload == nil {
+		out.Corr(corrOp, fmt.Sprintf("hdr=%s payload=none%s", vc08.Sha(spoolH), accTag))
+		out.Stat("chain.nothing-accepted")
+		return nil
+	}
+	obs := fmt.Sprintf("hdr=%s payload=%d:%s c=%s/%s h=%d bh=%s hh=%s%s", vc08.Sha(spoolH), len(payload), vc08.Sha(payload),
+		c.hc, c.bc, len(hkeys), hex.EncodeToString(bh), hex.EncodeToString(sg.digest), accTag)
+	out.Corr(corrOp, obs)
 	out.StatN("payload.bytes", len(payload))
 	c08BodyStats(out, c.body)
 
 	if c.mode == "m" {
 		env.sigparse(vh.NewRng(uint64(len(payload))*31+uint64(c.sender)), payload, c.algo)
 	}
+	return &c08Pending{c: c, op: op, sd: sd, tags: tags, payload: payload,
+		tampers: vc08.Tampers(vh.NewRng(uint64(len(payload))*7919+uint64(c.sender)), payload)}
+}
 
-	// ---- verification at the next hop
-	pub := env.pubs[c.algo][c08Norm(sd.selector, sd.keyDomain)]
-	tampers := vc08.Tampers(vh.NewRng(uint64(len(payload))*7919+uint64(c.sender)), payload)
-	ops := []string{"C08 vdata " + vh.HexBytes(payload)}
-	for _, tp := range tampers {
-		ops = append(ops, "C08 vdata "+vh.HexBytes(tp.Payload))
+// flush: verification at the next hop for the pending cases (one Lean driver process for all of them)
+func (env *c08Env) flush() {
+	out := env.out
+	ps := env.pending
+	env.pending, env.pendingBytes = nil, 0
+	if len(ps) == 0 {
+		return
+	}
+	var ops []string
+	for _, p := range ps {
+		ops = append(ops, "C08 vdata "+vc08.Enc(p.payload))
+		for _, tp := range p.tampers {
+			ops = append(ops, "C08 vdata "+vc08.Enc(tp.Payload))
+		}
 	}
 	answers, derr := vc08.Driver(ops)
 	if derr != nil {
 		env.t.Fatal("lean driver: ", derr)
 	}
+	for _, p := range ps {
+		c, op, tags, payload, tampers := p.c, p.op, p.tags, p.payload, p.tampers
+		ans := answers[:1+len(tampers)]
+		answers = answers[1+len(tampers):]
+		pub := env.pubs[c.algo][c08Norm(p.sd.selector, p.sd.keyDomain)]
 
-	// (1) go-msgauth with the published key
-	pass, detail := env.msgauthVerify(c.algo, payload, tags["d"])
-	if !pass {
-		out.Violation("C08/verify-fails", op, "go-msgauth: "+detail)
-	}
-	// (2) maddy's own check.dkim
-	if pass2, detail2 := env.maddyCheck(c.algo, payload); !pass2 {
-		out.Violation("C08/maddy-check-fails", op, detail2)
-	}
-	// (3) the Lean model as verifier
-	mv := vc08.ModelVerify(answers[0], pub)
-	if !mv.OK {
-		out.Violation("C08/model-verify-fails", op, mv.Reason)
-	} else {
-		out.Stat("verify.ok")
-	}
-	// tampering must be detected by every verifier
-	for i, tp := range tampers {
-		out.Stat("tamper." + tp.Kind)
-		if p, _ := env.msgauthVerify(c.algo, tp.Payload, tags["d"]); p {
-			out.Violation("C08/tamper-undetected-"+tp.Kind, op, "go-msgauth accepts: "+tp.Detail)
+		// (1) go-msgauth with the published key
+		pass, detail := env.msgauthVerify(c.algo, payload, tags["d"])
+		if !pass {
+			out.Violation("C08/verify-fails", op, "go-msgauth: "+detail)
 		}
-		if p, _ := env.maddyCheck(c.algo, tp.Payload); p {
-			out.Violation("C08/tamper-undetected-"+tp.Kind, op, "check.dkim accepts: "+tp.Detail)
+		// (2) maddy's own check.dkim
+		if pass2, detail2 := env.maddyCheck(c.algo, payload); !pass2 {
+			out.Violation("C08/maddy-check-fails", op, detail2)
 		}
-		if tv := vc08.ModelVerify(answers[i+1], pub); tv.OK {
-			out.Violation("C08/tamper-undetected-"+tp.Kind, op, "model verifier accepts: "+tp.Detail)
-		} else if tv.HdrHash == mv.HdrHash && tv.HdrHash != "" {
-			out.Violation("C08/tamper-undetected-"+tp.Kind, op, "digest input unchanged in the model: "+tp.Detail)
+		// (3) the Lean model as verifier
+		mv := vc08.ModelVerify(ans[0], pub)
+		if !mv.OK {
+			out.Violation("C08/model-verify-fails", op, mv.Reason)
+		} else {
+			out.Stat("verify.ok")
 		}
-	}
-	if len(tampers) == 0 {
-		out.Stat("tamper.none-possible")
+		// tampering must be detected by every verifier
+		for i, tp := range tampers {
+			out.Stat("tamper." + tp.Kind)
+			if p, _ := env.msgauthVerify(c.algo, tp.Payload, tags["d"]); p {
+				out.Violation("C08/tamper-undetected-"+tp.Kind, op, "go-msgauth accepts: "+tp.Detail)
+			}
+			if p, _ := env.maddyCheck(c.algo, tp.Payload); p {
+				out.Violation("C08/tamper-undetected-"+tp.Kind, op, "check.dkim accepts: "+tp.Detail)
+			}
+			if tv := vc08.ModelVerify(ans[i+1], pub); tv.OK {
+				out.Violation("C08/tamper-undetected-"+tp.Kind, op, "model verifier accepts: "+tp.Detail)
+			} else if tv.HdrHash == mv.HdrHash && tv.HdrHash != "" {
+				out.Violation("C08/tamper-undetected-"+tp.Kind, op, "digest input unchanged in the model: "+tp.Detail)
+			}
+		}
+		if len(tampers) == 0 {
+			out.Stat("tamper.none-possible")
+		}
 	}
 }
 
@@ -937,9 +1378,11 @@ func c08Replay(t *testing.T, prefix string, f func(op string)) bool {
 
 // in memory: signer -> verifiers, no queue, no SMTP (many cases, all generators)
 func TestVerifC08Sign(t *testing.T) {
+	t.Parallel()
 	out := vh.Open("c08_sign")
 	defer out.Close()
 	env := c08NewEnv(t, out, false)
+	defer env.flush()
 	if c08Replay(t, "C08 chain m ", func(op string) {
 		c, err := c08ParseCase(op)
 		if err != nil {
@@ -954,18 +1397,169 @@ func TestVerifC08Sign(t *testing.T) {
 	for i := 0; i < n; i++ {
 		env.run(c08GenCase(r, "m"))
 	}
+	env.flush()
 	for k, v := range env.queried {
 		out.StatN("txt-query."+k, v)
 	}
 }
 
+// ---- scheduled cases: sizes around plausible limits, faults while the message is being written
+
+// c08Delta: an offset from a limit (at it, one off, a little or well beyond)
+func c08Delta(r *vh.Rng) int {
+	switch r.Intn(7) {
+	case 0:
+		return -1
+	case 1:
+		return 0
+	case 2, 3:
+		return 1
+	case 4:
+		return 2 + r.Intn(100)
+	default:
+		return 100 + r.Intn(5000)
+	}
+}
+
+// padHeader adds fields no configuration signs so that the signed header, as written to the spool,
+// is exactly target octets long (the size of the signature field is learnt from a trial signing).
+func (env *c08Env) padHeader(r *vh.Rng, c *c08Case, target, shape int) bool {
+	sg := env.sign(c, "", true)
+	if sg == nil || sg.maxLine > 2000 {
+		return false
+	}
+	var w bytes.Buffer
+	textproto.WriteHeader(&w, sg.hdr)
+	need := target - w.Len()
+	if need < 40 {
+		return false
+	}
+	pads := vc08.Pad(r, need, shape)
+	pos := []int{0, len(c.fields), r.Intn(len(c.fields) + 1)}[r.Intn(3)]
+	c.fields = append(c.fields[:pos:pos], append(pads, c.fields[pos:]...)...)
+	return true
+}
+
+type c08Spec struct {
+	mode      string // "" = keep, "fault" = a queue fault mode chosen from the body
+	tgt       string // "" = keep, "smtp" = the smtp target (either server), "r" = the remote target
+	hdr, body int    // target sizes (0 = leave alone)
+	shape     int
+	// for "fault": 0 = at 0, 1 = in the middle, 2 = at the very end (error instead of EOF), 3 = open fails,
+	// 4 = near a 4096 boundary; 5, 6 = while the queue stores the message (anywhere / beyond io.Copy's 32 KiB buffer)
+	faultAt int
+}
+
+func c08Schedule(r *vh.Rng) []c08Spec {
+	small := []int{4096, 8192, 16384, 32768}
+	retry := func() string { return r.Pick("r", "R") }
+	any := func() string { return r.Pick("d", "r", "R") }
+	var sp []c08Spec
+	rounds := 1
+	if vh.Thorough() {
+		rounds = 4
+	}
+	for k := 0; k < rounds; k++ {
+		sp = append(sp,
+			// beyond 1 MiB (the default max_header_size of the SMTP endpoint applies to the header as received;
+			// maddy then prepends fields of its own), delivered by an attempt that re-reads the spool
+			c08Spec{mode: "r", hdr: 1<<20 + []int{1, 300 + r.Intn(700), 70000}[r.Intn(3)], shape: 0},
+			c08Spec{mode: "R", hdr: 1<<20 + c08Delta(r), shape: r.Intn(2)},
+			c08Spec{mode: retry(), hdr: 65536 + c08Delta(r), shape: r.Intn(3)},
+			c08Spec{mode: retry(), hdr: 65536 + 1 + r.Intn(3000), shape: r.Intn(3)},
+			c08Spec{mode: any(), hdr: small[r.Intn(4)] + c08Delta(r), shape: r.Intn(3)},
+			c08Spec{mode: any(), hdr: small[r.Intn(4)] + c08Delta(r), shape: r.Intn(3)},
+			c08Spec{mode: retry(), hdr: 4096*(1+r.Intn(12)) + c08Delta(r), shape: r.Intn(3)},
+			c08Spec{mode: retry(), body: 1<<20 + []int{1, 2 + r.Intn(3000), 70000}[r.Intn(3)]},
+			c08Spec{mode: any(), body: 65536 + 1 + r.Intn(3000)},
+			c08Spec{mode: any(), body: 65536 + c08Delta(r)},
+			c08Spec{mode: retry(), body: small[r.Intn(4)] + c08Delta(r)},
+		)
+		// every kind of fault through the smtp target and through the remote target
+		for _, tgt := range []string{"smtp", "r"} {
+			sp = append(sp,
+				c08Spec{mode: "fault", tgt: tgt, faultAt: 0},
+				c08Spec{mode: "fault", tgt: tgt, faultAt: 1},
+				c08Spec{mode: "fault", tgt: tgt, faultAt: 2},
+				c08Spec{mode: "fault", tgt: tgt, faultAt: 3},
+				c08Spec{mode: "fault", tgt: tgt, faultAt: 4, body: 9000 + r.Intn(60000)},
+			)
+		}
+		sp = append(sp,
+			c08Spec{mode: "fault", faultAt: 5},
+			c08Spec{mode: "fault", faultAt: 6, body: 40000 + r.Intn(60000)},
+		)
+		if vh.Thorough() && k == 0 {
+			sp = append(sp, c08Spec{mode: "R", hdr: 2<<20 + c08Delta(r), shape: 0}, c08Spec{mode: "r", body: 2<<20 + c08Delta(r)},
+				c08Spec{mode: "d", body: 1<<20 + c08Delta(r)})
+		}
+	}
+	return sp
+}
+
+// c08GenSpec: a generated case bent to a scheduled shape (a few tries: the base case must be signable)
+func (env *c08Env) genSpec(r *vh.Rng, sp c08Spec) *c08Case {
+	for try := 0; try < 30; try++ {
+		c := c08GenCase(r, "d")
+		if sp.mode != "" && sp.mode != "fault" {
+			c.mode = sp.mode
+		}
+		if sp.body > 0 {
+			c.body = vc08.PadBody(r, sp.body)
+		}
+		switch sp.tgt {
+		case "smtp":
+			if c.tgt == "r" {
+				c.tgt = "u"
+			}
+		case "r":
+			c.tgt = "r"
+		}
+		if sp.mode == "fault" {
+			k := 0
+			switch sp.faultAt {
+			case 1:
+				k = r.Intn(len(c.body) + 1)
+			case 2:
+				k = len(c.body)
+			case 4:
+				k = 4096*(1+r.Intn(len(c.body)/4096+1)) - r.Intn(3)
+				if k > len(c.body) {
+					k = len(c.body)
+				}
+			}
+			f := c08Fault{kind: "b", k: k}
+			switch sp.faultAt {
+			case 3:
+				f.kind = "o"
+			case 5:
+				f.kind, f.k = "s", r.Intn(len(c.body)+1)
+			case 6:
+				f.kind, f.k = "s", 32768+r.Intn(len(c.body)-32768+1)
+			}
+			c.mode = f.mode()
+		}
+		if sp.hdr > 0 {
+			if !env.padHeader(r, c, sp.hdr, sp.shape) {
+				continue
+			}
+		} else if sg := env.sign(c, "", true); sg == nil || sg.maxLine > 2000 {
+			continue
+		}
+		return c
+	}
+	return nil
+}
+
 // the full chain
 func TestVerifC08Chain(t *testing.T) {
+	t.Parallel()
 	out := vh.Open("c08_chain")
 	defer out.Close()
 	env := c08NewEnv(t, out, true)
+	defer env.flush()
 	if c08Replay(t, "C08 chain ", func(op string) {
-		if strings.HasPrefix(op, "C08 chain m ") {
+		if strings.HasPrefix(op, "C08 chain m ") || strings.HasPrefix(op, "C08 chain x") {
 			return
 		}
 		c, err := c08ParseCase(op)
@@ -977,14 +1571,115 @@ func TestVerifC08Chain(t *testing.T) {
 		return
 	}
 	r := vh.NewRng(vh.Seed() + 802)
+	for _, sp := range c08Schedule(r) {
+		if c := env.genSpec(r, sp); c != nil {
+			out.Stat("chain.scheduled")
+			env.run(c)
+		} else {
+			out.Stat("chain.scheduled-not-generated")
+		}
+	}
 	n := vh.N(600) / 3
 	for i := 0; i < n; i++ {
-		env.run(c08GenCase(r, r.Pick("d", "r", "r", "R", "R")))
+		c := c08GenCase(r, r.Pick("d", "r", "r", "R", "R"))
+		if r.Chance(6) {
+			// a moderately padded header at no particular size
+			env.padHeader(r, c, 3000+r.Intn(120000), r.Intn(3))
+		}
+		env.run(c)
 	}
+	env.flush()
+}
+
+// faults while the message is being written, directly on internal/smtpconn (SMTP and LMTP) against a
+// hand-written next hop that records the octets of every DATA phase: what it acknowledged must be the
+// complete signed message; an attempt smtpconn reports as failed must not have been acknowledged.
+func TestVerifC08Fault(t *testing.T) {
+	t.Parallel()
+	out := vh.Open("c08_fault")
+	defer out.Close()
+	env := c08NewEnv(t, out, false)
+	defer env.flush()
+	for _, lmtp := range []bool{false, true} {
+		raw, port, err := vc08.StartRaw(lmtp)
+		if err != nil {
+			t.Fatal(err)
+		}
+		defer raw.Close()
+		env.raw[lmtp], env.rawPort[lmtp] = raw, port
+	}
+	if c08Replay(t, "C08 chain x", func(op string) {
+		c, err := c08ParseCase(op)
+		if err != nil {
+			t.Fatal(err)
+		}
+		env.run(c)
+	}) {
+		return
+	}
+	r := vh.NewRng(vh.Seed() + 805)
+	n := vh.N(600) / 4
+	for i := 0; i < n; i++ {
+		c := c08GenCase(r, "d")
+		if r.Chance(30) {
+			c.body = append(c.body, vc08.PadBody(r, 3000+r.Intn(80000))...)
+		}
+		if r.Chance(10) {
+			env.padHeader(r, c, 4000+r.Intn(30000), r.Intn(3))
+		}
+		f := c08Fault{direct: true, lmtp: r.Chance(35)}
+		f.kind = r.Pick("n", "b", "b", "b", "e", "e", "w")
+		f.chunk = []int{0, 0, 0, 1, 7, 512, 4096, 5000}[r.Intn(8)]
+		if f.chunk == 1 && len(c.body) > 20000 {
+			f.chunk = 13
+		}
+		total := len(vc08.Join(c.fields, c.body)) // a lower bound of what goes over the wire
+		switch f.kind {
+		case "b", "e":
+			switch r.Intn(8) {
+			case 0:
+				f.k = 0
+			case 1:
+				f.k = len(c.body)
+			case 2:
+				f.k = len(c.body) - 1
+			case 3:
+				f.k = 1
+			case 4:
+				f.k = 4096*(1+r.Intn(len(c.body)/4096+1)) - r.Intn(3)
+			case 5:
+				f.k = 32768 * (1 + r.Intn(len(c.body)/32768+1))
+			default:
+				f.k = r.Intn(len(c.body) + 1)
+			}
+			if f.k > len(c.body) {
+				f.k = len(c.body)
+			}
+			if f.k < 0 {
+				f.k = 0
+			}
+		case "w":
+			switch r.Intn(4) {
+			case 0:
+				f.k = r.Intn(200) // inside the header
+			case 1:
+				f.k = 4096 * r.Intn(total/4096+1)
+			default:
+				f.k = r.Intn(total)
+			}
+			if f.k >= total {
+				f.k = total - 1
+			}
+		}
+		c.mode = f.mode()
+		env.run(c)
+	}
+	env.flush()
 }
 
 // fieldsToSign alone: configuration lists x headers
 func TestVerifC08Fts(t *testing.T) {
+	t.Parallel()
 	out := vh.Open("c08_fts")
 	defer out.Close()
 	run := func(ov, sg []string, fields [][]byte) {
@@ -1101,6 +1796,7 @@ func c08UnhexList(s string) []string {
 
 // library byte behaviour: go-message ReadHeader and the DATA dot encoding, also on input that is not conformant
 func TestVerifC08Wire(t *testing.T) {
+	t.Parallel()
 	out := vh.Open("c08_wire")
 	defer out.Close()
 	port := vsmtp.FreePort()
